@@ -15,9 +15,12 @@ for pid in ids:
         "evidence_file": "evidence/%s.json" % pid,
         "replay_cmd_template": "./check %s --replay {path}" % pid,
         "engine": "pyvc",
-        "level_claimed": {"category": c.get("level", "other"), "text": c["explanation"], "design_ref": c.get("design_ref", "DESIGN.md section 6." + pid)},
+        "level_claimed": {"category": c.get("level", "other"), "text": c["explanation"], "design_ref": c.get("design_ref", "DESIGN.md sections 6.%s, 13, 15" % pid)},
         "level_note": c.get("level_note", "Assumed: " + "; ".join(P.ENCODING_ASSUMPTIONS[:3]) + "; assumed contracts on callees listed in the evidence trusted_base."),
-        "technique": c.get("technique", "contract-based deductive verification (sidecar contracts on the real functions, VCs generated from the AST, discharged by z3/cvc5)"),
+        "technique": c.get("technique", ("contract-based deductive verification of the real functions (pyvc: sidecar contracts, VCs generated from the AST every run, "
+                                         "discharged by z3/cvc5, counterexamples replayed natively)"
+                                         + ("; composition and third-party parts by bounded stand-ins / run-time monitors (%s), labelled bounded, never counted as proved"
+                                            % ", ".join(c.get("bounded", [])) if c.get("bounded") else ""))),
     })
 na = [{"property_id": pid, "reason": P.NOT_APPLICABLE.get(pid, "check not built yet in this session; not claimed")} for pid in ids if pid not in P.PROPS or not P.PROPS[pid].get("contracts")]
 doc = {"version": 1, "setup_cmd": "./setup.sh",
@@ -27,7 +30,7 @@ doc = {"version": 1, "setup_cmd": "./setup.sh",
        "engines": [{"name": "pyvc", "path": "pyvc/", "serves_properties": [c["property_id"] for c in checks],
                     "kind_free_text": "VC generator for a Python subset: re-reads real function bodies with ast on every run, symbolic execution against sidecar contracts (pre/post, loop invariants, frames, ghost state), SMT-LIB obligations discharged by z3 and cvc5; counterexamples replayed natively"}],
        "checks": checks, "not_applicable": na,
-       "notes": "See DESIGN.md. Bounded stand-ins and run-time monitors are labelled as such in each evidence file and never counted as proved."}
+       "notes": "See DESIGN.md (sections 12-16 describe what was built). Bounded stand-ins and run-time monitors are labelled as such in each evidence file and never counted as proved. Exit codes: 0 held / 1 VIOLATION / 2 undecided (never a verdict) / 3 checker error. Known findings: known_findings.json. Confirmed seeded changes with their verdicts: seeded/<id>/changeN/meta.json."}
 with open(os.path.join(os.path.dirname(os.path.abspath(__file__)), "MANIFEST.json"), "w") as f:
     json.dump(doc, f, indent=1)
 print("MANIFEST.json: %d checks, %d not claimed" % (len(checks), len(na)))
